@@ -513,8 +513,9 @@ def check_integrity(c):
              E.TSK_CHECK_MUTATION_ORDERING, E.TSK_CHECK_INDIVIDUAL_ORDERING, E.TSK_CHECK_MIGRATION_ORDERING,
              E.TSK_CHECK_INDEXES, E.TSK_CHECK_TREES, E.TSK_NO_CHECK_POPULATION_REFS]
     # the options word the checkers were actually called with is the documented effective one
-    c.ensures(lambda: z3.And(*[flag(eff, m) == flag(c.new.local("options"), m) for m in masks]),
-              "effective_options")
+    if c.mode != "call":     # (a statement about the function's own local: meaningful only when its body is verified)
+        c.ensures(lambda: z3.And(*[flag(eff, m) == flag(c.new.local("options"), m) for m in masks]),
+                  "effective_options")
     for (nm, fn) in clauses:
         c.ensures((lambda fn=fn: z3.Implies(c.result >= 0, fn())), "accepted_valid_" + nm)
     c.ensures(lambda: z3.Implies(z3.Not(trees), z3.Or(c.result == 0, c.result < 0)), "ret_zero_without_trees")
